@@ -168,17 +168,25 @@ Fixpoint uint_of_digits (l : list Z) : option uint :=
 (* a number token: an integer when it is  [-] digit+ , otherwise an opaque float token *)
 Definition number_of_token (tok : list Z) : tval :=
   match tok with
-  | 45 :: (_ :: _) as ds =>
-    match uint_of_digits ds with
-    | Some u => TvInt (- Z.of_uint u)
-    | None => TvFloat tok
-    end
-  | _ :: _ =>
-    match uint_of_digits tok with
-    | Some u => TvInt (Z.of_uint u)
-    | None => TvFloat tok
-    end
   | [] => TvFloat tok
+  | c :: ds =>
+    if (c =? 45) && negb (length ds =? 0)%nat then
+      match uint_of_digits ds with
+      | Some u => TvInt (- Z.of_uint u)
+      | None => TvFloat tok
+      end
+    else
+      match uint_of_digits tok with
+      | Some u => TvInt (Z.of_uint u)
+      | None => TvFloat tok
+      end
+  end.
+
+(* 0x followed by a quote *)
+Definition starts_hexlit (c : Z) (r : list Z) : bool :=
+  match r with
+  | a :: b :: _ => (c =? 48) && (a =? 120) && (b =? 34)
+  | _ => false
   end.
 
 Definition kw_true : list Z := [116; 114; 117; 101].
@@ -229,16 +237,20 @@ Fixpoint parse_value (fuel : nat) (l : list Z) : option (tval * list Z) :=
     | c :: r =>
       if c =? 40 then                                   (* ( *)
         match skip_ws r with
-        | 41 :: r' => Some (TvStruct FNil, r')
-        | _ => match parse_fields f r with
+        | [] => None
+        | c2 :: r' =>
+          if c2 =? 41 then Some (TvStruct FNil, r')
+          else match parse_fields f r with
                | Some (fs, r') => Some (TvStruct fs, r')
                | None => None
                end
         end
       else if c =? 91 then                              (* [ *)
         match skip_ws r with
-        | 93 :: r' => Some (TvList TNil, r')
-        | _ => match parse_elems f r with
+        | [] => None
+        | c2 :: r' =>
+          if c2 =? 93 then Some (TvList TNil, r')
+          else match parse_elems f r with
                | Some (vs, r') => Some (TvList vs, r')
                | None => None
                end
@@ -253,14 +265,10 @@ Fixpoint parse_value (fuel : nat) (l : list Z) : option (tval * list Z) :=
         | Some (m, r') => Some (TvMarker (60 :: m), r')
         | None => None
         end
-      else if (c =? 48) && (match r with 120 :: 34 :: _ => true | _ => false end) then
-        match r with
-        | _ :: _ :: r1 =>
-          match parse_hexdata r1 with
-          | Some (s, r') => Some (TvData s, r')
-          | None => None
-          end
-        | _ => None
+      else if starts_hexlit c r then
+        match parse_hexdata (skipn 2 r) with
+        | Some (s, r') => Some (TvData s, r')
+        | None => None
         end
       else if is_digit c || (c =? 45) || (c =? 43) then
         let (tok, r') := span is_numchar (c :: r) in Some (number_of_token tok, r')
@@ -298,7 +306,9 @@ with parse_fields (fuel : nat) (l : list Z) : option (tfields * list Z) :=
     | [] => None
     | _ :: _ =>
       match skip_ws r0 with
-      | 61 :: r1 =>
+      | [] => None
+      | c0 :: r1 =>
+        if negb (c0 =? 61) then None else
         match parse_value f r1 with
         | None => None
         | Some (v, r2) =>
@@ -314,7 +324,6 @@ with parse_fields (fuel : nat) (l : list Z) : option (tfields * list Z) :=
           | [] => None
           end
         end
-      | _ => None
       end
     end
   end.
